@@ -558,11 +558,38 @@ func (ee *engineEnv) table(out *sink) {
 
 var engineHung bool
 
+// costBudget: a check that issues more storage operations than this is not evaluated.  Recursive permissions over cyclic
+// relationships cost a number of sub-checks exponential in the depth limit (bounded, as C15 demands, but 2^30 under the
+// limit 60 these environments use); neither the implementation nor the model is run to the end on such a request.
+// Decided by COUNTING operations on a wrapped engine that is cancelled at the budget, not by a clock.
+const costBudget = 20000
+
+func (ee *engineEnv) costly(tu *ketoapi.RelationTuple, depth int) bool {
+	ctx, cancel := context.WithCancel(context.Background())
+	defer cancel()
+	its, err := ee.e.reg.ReadOnlyMapper().FromTuple(ctx, tu)
+	if err != nil {
+		return false
+	}
+	p := &storagePlan{cancelAt: costBudget, cancel: cancel}
+	eng := ee.faultyEngine(p)
+	done := make(chan struct{})
+	go func() { eng.CheckRelationTuple(ctx, its[0], depth); close(done) }()
+	select {
+	case <-done:
+	case <-time.After(20 * time.Second):
+	}
+	return p.count() >= costBudget
+}
+
 // check runs the real engine on one tuple; a check that has not returned after 20 s is reported as "hang" (and the
 // suite stops issuing further checks: every one of them would cost the same 20 s)
 func (ee *engineEnv) check(tu *ketoapi.RelationTuple, depth int) string {
 	if engineHung {
 		return "hang"
+	}
+	if ee.costly(tu, depth) {
+		return "costly"
 	}
 	ctx, cancel := context.WithCancel(context.Background())
 	defer cancel()
